@@ -83,6 +83,55 @@ def numeric_c10_1d(family, k):
     return out
 
 
+def scan_all_rows(family):
+    """all 1000 rows of a 1-D family at once (numpy, coefficient tables re-read from the source): candidate global extremisers on a
+    fine grid with a local refinement; a candidate that beats the published tables / declared optimum is CONFIRMED with the real
+    Calculate before it is reported. Returns [(row, message, witness)]."""
+    import numpy as np
+    gen = PT.load_tables(core.REPO, PT.FAMILIES[family][2][list(PT.FAMILIES[family][2])[0]])
+    mn, mx, lc = bench.tables_1d(core.REPO, family)
+    if family == 'Hill':
+        a = np.array(gen['aHill'], dtype=float); b = np.array(gen['bHill'], dtype=float); lo, hi = 0.0, 1.0
+        i = np.arange(a.shape[1])[None, :, None]
+
+        def f(rows, xs):      # rows: (R,), xs: (R, P)
+            return (a[rows][:, :, None] * np.sin(2 * i * np.pi * xs[:, None, :]) + b[rows][:, :, None] * np.cos(2 * i * np.pi * xs[:, None, :])).sum(axis=1)
+    else:
+        kk = np.array(gen['kShekel'], dtype=float); aa = np.array(gen['aShekel'], dtype=float); cc = np.array(gen['cShekel'], dtype=float); lo, hi = 0.0, 10.0
+
+        def f(rows, xs):
+            return -(1.0 / (kk[rows][:, :, None] * (xs[:, None, :] - aa[rows][:, :, None]) ** 2 + cc[rows][:, :, None])).sum(axis=1)
+    R = a.shape[0] if family == 'Hill' else kk.shape[0]
+    rows = np.arange(R)
+    grid = np.linspace(lo, hi, 4001)
+    out = []
+    for sign, table, word in ((1.0, mn, 'minimum'), (-1.0, mx, 'maximum')):
+        best_x = np.zeros(R); best_v = np.full(R, np.inf)
+        for blk in range(0, R, 100):
+            rr = rows[blk:blk + 100]
+            vals = sign * f(rr, np.broadcast_to(grid, (len(rr), len(grid))))
+            j = vals.argmin(axis=1)
+            x0 = grid[j]; h = grid[1] - grid[0]
+            for _ in range(3):      # zoom in around the best grid node
+                loc = np.clip(x0[:, None] + np.linspace(-h, h, 41)[None, :], lo, hi)
+                v = sign * f(rr, loc)
+                jj = v.argmin(axis=1)
+                x0 = loc[np.arange(len(rr)), jj]; h = h / 20
+            best_x[blk:blk + 100] = x0; best_v[blk:blk + 100] = (sign * f(rr, x0[:, None]))[:, 0]
+        for k in range(R):
+            tv, tx = float(table[k][0]), float(table[k][1])
+            v = sign * best_v[k]
+            if (sign > 0 and v < tv - 1e-4) or (sign < 0 and v > tv + 1e-4):      # the function goes beyond the published extreme value
+                out.append((k, word, float(best_x[k]), float(v), tv, tx))
+    res = []
+    for k, word, x, v, tv, tx in out[:6]:      # confirm on the implementation
+        pb = problem(family, k=k)
+        real = calc(pb, [x])
+        if (word == 'minimum' and real < tv - 1e-4) or (word == 'maximum' and real > tv + 1e-4):
+            res.append((k, '%s row %d: Calculate(%r) = %r, but the published %s is %r (at %r)' % (family, k, x, real, word, tv, tx), {'point': [x]}))
+    return res, R
+
+
 def run_batches(chk, texts, label):
     """compile per-instance files; one obligation per instance; returns {id: (ok, lemma, msg)}"""
     res = bench.compile_instances(texts, 'bench', timeout=1500)
